@@ -534,7 +534,51 @@ func runC18(c *ctx) {
 			}
 		}
 	}
-	c.Required = []string{"producer/expand-some-ellipses", "fill-results-pass-the-validity-rules", "producer/expand-and-fill-in-one-call", "producer/second-fill-from-the-same-map", "producer/wait", "producer/session", "producer/fill", "refused/wait", "refused/session", "refused/fill", "sequence-length/3"}
+	// a fill at the item size limit and one byte beyond it: the result passes the rules of a fresh message (an ASCII item
+	// holds at most 16,777,215 characters), and a message that is complete afterwards encodes completely
+	for _, n := range []int{ref.MaxBytes, ref.MaxBytes + 1} {
+		tplMsg := ast.NewDataMessage("big", 1, 1, 0, "H->E", ast.NewListNode(ast.NewASCIINodeVariable("txt", 0, -1), ast.NewUintNode(1, 9))).SetSessionIDAndSystemBytes(3, []byte{0, 0, 0, 3})
+		var got *ast.DataMessage
+		o := real.Try(func() { got = tplMsg.FillVariables(map[string]interface{}{"txt": strings.Repeat("q", n)}) })
+		c.NoteBulk(1, 1)
+		c.Class("fill-at-the-item-size-limit")
+		switch {
+		case n > ref.MaxBytes && !o.Panicked:
+			c.Violation("C18/validity/fill-beyond-the-item-limit-accepted", fmt.Sprintf("a %d-character fill was accepted; ToBytes() has %d bytes, Variables()=%q", n, len(got.ToBytes()), got.Variables()), c18Case{Ops: []prodOp{{Kind: "fill-limit"}}})
+		case n <= ref.MaxBytes && (o.Panicked || len(got.ToBytes()) != 14+2+4+n+3 || got.SessionID() != 3):
+			c.Violation("C18/frame/fill-at-the-item-limit", fmt.Sprintf("a %d-character fill: %s", n, o), c18Case{Ops: []prodOp{{Kind: "fill-limit"}}})
+		}
+	}
+	// variables at the bottom of deep nests are filled like any other (every depth 1..80, then 200 and 1000)
+	for _, depth := range append(func() []int {
+		var d []int
+		for i := 1; i <= 80; i++ {
+			d = append(d, i)
+		}
+		return d
+	}(), 200, 1000) {
+		var it ast.ItemNode = ast.NewListNode(ast.NewUintNode(2, "deep"), "slot", ast.NewASCIINodeVariable("txt", 0, 5))
+		for i := 0; i < depth; i++ {
+			it = ast.NewListNode(it)
+		}
+		msg := ast.NewDataMessage("deep", 1, 1, 0, "H->E", it).SetSessionIDAndSystemBytes(3, []byte{0, 0, 0, 3})
+		var got *ast.DataMessage
+		o := real.Try(func() {
+			got = msg.FillVariables(map[string]interface{}{"deep": 513, "slot": ast.NewBinaryNode(7), "txt": "abc"})
+		})
+		c.NoteBulk(1, 1)
+		c.Class("fill-at-the-bottom-of-a-deep-nest")
+		want := 14 + 2*depth + 2 + 4 + 3 + 5
+		if o.Panicked || len(got.Variables()) != 0 || len(got.ToBytes()) != want {
+			nb, nv := -1, []string(nil)
+			if got != nil {
+				nb, nv = len(got.ToBytes()), got.Variables()
+			}
+			c.Violation("C18/frame/fill-at-the-bottom-of-a-deep-nest", fmt.Sprintf("%d lists around <L <U2 deep> slot <A txt>>: %s; ToBytes() has %d bytes (want %d), Variables()=%q", depth, o, nb, want, nv), c18Case{Ops: []prodOp{{Kind: "fill-deep"}}})
+			break
+		}
+	}
+	c.Required = []string{"fill-at-the-item-size-limit", "fill-at-the-bottom-of-a-deep-nest", "producer/expand-some-ellipses", "fill-results-pass-the-validity-rules", "producer/expand-and-fill-in-one-call", "producer/second-fill-from-the-same-map", "producer/wait", "producer/session", "producer/fill", "refused/wait", "refused/session", "refused/fill", "sequence-length/3"}
 }
 
 func replayC18(c *ctx, raw json.RawMessage) {
